@@ -428,7 +428,8 @@ class Hist:
         if pps is None:
             pps = c.get('pps')
         self.steps.append({'op': 'new', 'gen': 'g%d' % len(self.gens), 'lang': c['lang'], 'lang_opts': c.get('lang_opts'),
-                           'templates': c.get('templates'), 'pps': pps, 'subset': subset, 'variant': variant, 'lang_cfg': c.get('lang_cfg'),
+                           'templates': c.get('templates'), 'pps': pps, 'pps_shared': c.get('pps_shared'), 'subset': subset, 'variant': variant,
+                           'lang_cfg': c.get('lang_cfg'),
                            'trim_blocks': c.get('trim'), 'lstrip_blocks': c.get('lstrip'),
                            'lctx_of': None if lctx_of is None else 'g%d' % lctx_of})
         self.gens.append({'cfg': cfg, 'subset': subset if subset is not None else list(self.sp.order), 'step': len(self.steps) - 1,
@@ -753,6 +754,22 @@ def gen_builtin_histories(rng, lang: str, sp: Space, tier: str) -> typing.List[H
         ao.run(ao.new(c), chunks=True, **kw)
     h.cfgs.update({k: v for k, v in ao.cfgs.items() if k not in h.cfgs})
     out.append(ao)
+    # ONE post-processor list object handed to generators for DIFFERENT languages (and re-used for the first one again): each
+    # generator must behave as if it had got its own copy (signature: the explicit list as written by the caller)
+    sl = Hist('builtin-%s-sharedpps' % lang, sp, 'builtin')
+    sl.hashseed = rng.randrange(0, 1000)
+    sl.cfgs = dict(ao.cfgs)
+    for cid, lg in ((12, lang), (13, other), (14, {'c': 'cpp', 'cpp': 'py', 'py': 'html', 'html': 'py'}[lang])):
+        sl.cfgs[cid] = {'lang': lg, 'lang_opts': None, 'pps': [], 'pps_shared': 'L'}
+    for cid in (12, 13, 14, 12):
+        sl.run(sl.new(cid), chunks=True)
+    out.append(sl)
+    for cid in (12, 13):          # references: a new interpreter, a list of its own
+        fr = Hist('builtin-%s-fresh-sharedpps%d' % (lang, cid), sp, 'builtin')
+        fr.hashseed = rng.randrange(0, 1000)
+        fr.cfgs = {cid: {k: v for k, v in sl.cfgs[cid].items() if k != 'pps_shared'}}
+        fr.run(fr.new(cid), chunks=True)
+        out.append(fr)
     # the bundled engine's process-wide Lexer cache: environments that differ from the generator's in exactly ONE lexer-relevant
     # setting are used first (by "somebody else" in the interpreter: plain bundled Environments), then the generator
     fe = Hist('builtin-%s-foreignenv' % lang, sp, 'builtin')
